@@ -27,7 +27,7 @@ def rat(c):
 def batch_script(preamble, checks, per_check_ms=20000, tactic='qfnra-nlsat', logic='QF_NRA', models=False):
     """checks: list of (label, [assert strings]). Returns script text."""
     L = ["(set-logic %s)" % logic] if logic else []
-    if models: L.append("(set-option :produce-models true)")
+    if models: L += ["(set-option :produce-models true)", "(set-option :pp.decimal true)", "(set-option :pp.decimal_precision 30)"]
     L += preamble
     for label, asserts in checks:
         L.append("(push)")
